@@ -3,6 +3,7 @@ mod level_drv;
 mod model;
 mod queue_drv;
 mod sched;
+mod uuid_drv;
 
 use serde_json::Value;
 use std::io::{BufRead, Write};
@@ -44,6 +45,14 @@ fn main() {
             for sc in &scs {
                 lines.extend(grid_drv::run(sc));
             }
+            write_lines(&args[3], &lines);
+            if args.len() > 4 {
+                std::fs::write(&args[4], "[]").unwrap();
+            }
+        }
+        "uuid" => {
+            let scs = read_ndjson(&args[2]);
+            let lines = uuid_drv::run_scenarios(&scs);
             write_lines(&args[3], &lines);
             if args.len() > 4 {
                 std::fs::write(&args[4], "[]").unwrap();
